@@ -4242,6 +4242,9 @@ impl Compiler {
         for (pattern_index, pattern) in arm_patterns.iter().enumerate() {
             let is_first_pattern = pattern_index == 0;
             let is_last_pattern = pattern_index == arm_patterns.len() - 1;
+            // Is this the pattern that completes the match of the whole alternative?
+            // (the last pattern of a nested container only completes its container)
+            let completes_alternative = params.has_last_pattern && is_last_pattern;
             let pattern_index = if index_from_end {
                 -((arm_patterns.len() - pattern_index) as i8)
             } else {
@@ -4282,7 +4285,7 @@ impl Compiler {
                         // then jump to the end of the arm
                         self.push_op(JumpIfFalse, &[comparison]);
                         params.jumps.arm_end.push(self.push_offset_placeholder());
-                    } else if params.has_last_pattern && is_last_pattern {
+                    } else if completes_alternative {
                         // If there's a match with remaining alternative matches,
                         // then jump to the end of the alternatives
                         self.push_op(JumpIfTrue, &[comparison]);
@@ -4325,7 +4328,7 @@ impl Compiler {
                     }
 
                     // The variable has received its value, is a jump needed?
-                    if is_last_pattern && !params.is_last_alternative {
+                    if completes_alternative && !params.is_last_alternative {
                         // e.g. x, 0, y or x, 1, y if x == y then
                         //            ^ ~~~~~~ We're here, jump to the if condition
                         self.push_op(Jump, &[]);
@@ -4357,7 +4360,7 @@ impl Compiler {
                     }
 
                     // The ignored id has been validated, is a jump needed?
-                    if is_last_pattern && !params.is_last_alternative {
+                    if completes_alternative && !params.is_last_alternative {
                         // e.g. x, 0, _ or x, 1, y if foo x then
                         //            ^~~~~~~ We're here, jump to the if condition
                         self.push_op(Jump, &[]);
@@ -4371,7 +4374,7 @@ impl Compiler {
                         MatchArmParameters {
                             match_register: params.match_register,
                             is_last_alternative: params.is_last_alternative,
-                            has_last_pattern: params.has_last_pattern,
+                            has_last_pattern: completes_alternative,
                             jumps: params.jumps,
                         },
                         Some(pattern_index),
@@ -4392,7 +4395,7 @@ impl Compiler {
                             );
                         }
 
-                        if !params.is_last_alternative {
+                        if completes_alternative && !params.is_last_alternative {
                             // Ellipses match unconditionally in last position,
                             // multi-expression pattern, skip over the remaining alternatives
                             // e.g. (x, 0, rest...) or (x, 1, y) if rest.size() > 0 then
@@ -4435,7 +4438,7 @@ impl Compiler {
                     self.try_unpack_map(map_register, entries, type_hint, jumps, ctx)?;
 
                     // The map pattern been validated, is a jump needed?
-                    if is_last_pattern && !params.is_last_alternative {
+                    if completes_alternative && !params.is_last_alternative {
                         // e.g. x, 0, {y: 1} or x, 1, {y: 2} if foo x then
                         //                 ^~~~ We're here, jump to the if condition
                         self.push_op(Jump, &[]);
